@@ -116,12 +116,26 @@ func runC03(w *World, r *Report, tier string) {
 		}
 		var seq []string
 		seenAuth := false
+		restarted := false
 		for _, in := range path {
 			c := asCall(in)
 			if c == nil {
 				continue
 			}
 			s, ok := stepKey[w.callKey(c)]
+			// init() and reset() written out where they were called: reading the stream features is the init step, or,
+			// right after a stream restart, the reset step
+			switch w.callKey(c) {
+			case "xmpp.Transport.StartStream":
+				restarted = true
+			case "xmpp.Session.extractStreamFeatures":
+				if restarted {
+					s, ok = "reset", true
+				} else {
+					s, ok = "init", true
+				}
+				restarted = false
+			}
 			if !ok {
 				continue
 			}
@@ -670,6 +684,22 @@ func runC03(w *World, r *Report, tier string) {
 					ev := errResult(nsc[0].(*ssa.Call))
 					cut := edgesAsserting(f, func(cv ssa.Value, truth bool) bool { return assertsNil(cv, truth, ev) })
 					okDom = len(cut) > 0 && !reachable(entryLoc(f), func(in ssa.Instruction) bool { return in == c.(ssa.Instruction) }, nil, cut)
+					if !okDom {
+						// the error may be kept in a variable that lives in memory (a named result read by a deferred
+						// clean-up): every path to the announcement has found it nil
+						isC := func(in ssa.Instruction) bool { return in == c.(ssa.Instruction) }
+						nP, okP := 0, true
+						err := walkPaths(entryLoc(f), isC, nil, 20000, func(path []ssa.Instruction, end pathEnd) {
+							if !isC(path[len(path)-1]) {
+								return
+							}
+							nP++
+							if !pathAsserts(path, func(cv ssa.Value, truth bool) bool { return assertsNil(cv, truth, ev) }) {
+								okP = false
+							}
+						})
+						okDom = err == nil && nP > 0 && okP
+					}
 				}
 				// no error return after it
 				errAfter := false
